@@ -25,13 +25,14 @@ func init() {
 		ID: "C02",
 		Rule: "pipelines of 1..4 requests (HTTP/1.1, or HTTP/1.0 with keep-alive) whose bodies (Content-Length, chunked, or chunked with a malformed chunk terminator; sizes around 0, the 8 KiB prefetch and MaxRequestBodySize) consist of well-formed 'GET /smuggled' requests, " +
 			"handlers reading none / k / all of the body (streaming on and off), taking it through Request.Body(), dropping it with ResetBody / SetBody, going back to it after EOF (another Read, PostArgs, Body), and ending normally, with an error status, or through TimeoutError / TimeoutErrorWithResponse, Expect: 100-continue accepted or rejected by ContinueHandler or ExpectHandler, random arrival chunking, followed by a sentinel request; " +
-			"monitor: the dispatched targets are a prefix of the planned ones (a body byte parsed as a request shows up as /smuggled or as garbage); non-trivial = some request carries a body; distinct = distinct input",
+			"monitor: every final response answers a dispatched request or is the one legitimate refusal, and the dispatched targets are a prefix of the planned ones (a body byte parsed as a request shows up as /smuggled or as garbage); non-trivial = some request carries a body; distinct = distinct input",
 		Parallel: true,
 		Build: func(kind string, a [][]byte) *Case {
 			cfg := parseCfg(a[0])
 			// a[1..]: per request "method|bodysize|framing(cl,ch,chx)|rb|expect(0/1)|handler-ending|version(\"\" = 1.1, 10 = HTTP/1.0 keep-alive)"
 			var stream bytes.Buffer
 			var planned []string
+			var rejectable []bool
 			var bodies [][]byte
 			// model tie: for plainly streamed fixed-length bodies the Lean model of requestStream + the server's reuse
 			// decision is replayed on what the scripted handler did (rskeep); modelIdx[j] = request index of line j
@@ -53,6 +54,9 @@ func init() {
 				}
 				planned = append(planned, uri)
 				bodies = append(bodies, body)
+				// may the server answer THIS request with an error response instead of dispatching it?
+				rejectable = append(rejectable, (f[4] == "1" && (cfg.Continue == "reject" || cfg.Continue == "expect417")) ||
+					(cfg.MaxBody > 0 && size > cfg.MaxBody) || f[2] == "chx" || f[4] == "1")
 				if len(f) > 6 && f[6] == "10" && f[2] == "cl" {
 					// an HTTP/1.0 keep-alive request (it may carry an expectation all the same)
 					fmt.Fprintf(&stream, "%s %s HTTP/1.0\r\nHost: h\r\nConnection: keep-alive\r\n", f[0], uri)
@@ -137,6 +141,18 @@ func init() {
 					for _, e := range res.Trace.Events {
 						if e.Kind == "panic" {
 							return Verdict{VSpec, "impl-panic", "server panicked: " + e.S + " " + desc}
+						}
+					}
+					// every final response on the wire answers a dispatched request, except at most one error response for the
+					// request after the last dispatched one when that request may be refused (rejected expectation, body over
+					// the limit, malformed chunk): any other response means the server parsed bytes that are no request
+					if codes, perr := wireResponses(res.Trace.Out); perr == nil && len(codes) > len(got) {
+						allowed := 0
+						if len(got) < len(rejectable) && rejectable[len(got)] {
+							allowed = 1
+						}
+						if len(codes)-len(got) > allowed && len(got) <= len(planned) {
+							return Verdict{VSpec, "body-bytes-parsed-as-request", fmt.Sprintf("%d final responses %v for %d dispatched requests (%d refusal(s) would be legitimate here): the server answered something that is not a request of the client. %s", len(codes), codes, len(got), allowed, desc)}
 						}
 					}
 					for k, u := range got {
